@@ -7,11 +7,16 @@ package main
 // still touched by one host goroutine at a time.  Control changes hands only at
 // *scheduling points*: a `go` statement, Mutex/RWMutex acquisition, channel
 // send / receive / select, WaitGroup.Wait, time.Sleep, runtime.Gosched and the
-// verifrt.Settle intrinsic.  For data-race-free code (shared state touched
-// under a lock or through channels) that is where behaviours can differ.  At a
-// scheduling point the next goroutine is a *decision* among the runnable ones
-// (forkFree): the explorer enumerates schedules exactly like other branches,
-// and the decision prefix replays a schedule deterministically.
+// verifrt.Sched / verifrt.Settle intrinsics.  For data-race-free code (shared
+// state touched under a lock or through channels) that is where behaviours can
+// differ.  At a scheduling point the next goroutine is a *decision* among the
+// runnable ones (forkFree): the explorer enumerates schedules exactly like
+// other branches, and the decision prefix replays a schedule deterministically.
+//
+// Preemption bound (-preempt N, default 2): a switch away from a goroutine that
+// could itself continue is a preemption; once a path has used N of them, a
+// goroutine that can continue does continue.  Switches forced by blocking or by
+// a goroutine ending are never counted.  N is part of the stated bound.
 //
 // A path ends when the entry goroutine returns (the others are discarded), when
 // any goroutine ends the path (assertion, panic, unsupported), or with outcome
@@ -21,7 +26,6 @@ import (
 	"fmt"
 	"go/types"
 	"strings"
-	"sync"
 
 	"golang.org/x/tools/go/ssa"
 )
@@ -29,6 +33,8 @@ import (
 type gor struct {
 	id     int
 	resume chan struct{}
+	kill   chan struct{}
+	exited chan struct{}
 	done   bool
 	ready  func() bool // nil: runnable
 	what   string
@@ -41,14 +47,13 @@ type gor struct {
 }
 
 type schedState struct {
-	on         bool
-	gos        []*gor
-	cur        *gor
-	abort      chan struct{}
-	crossPanic interface{}
-	wg         sync.WaitGroup
-	locks      map[*Value]int // 0 free, -1 write-locked, n>0 readers
-	wgCount    map[*Value]int
+	on          bool
+	gos         []*gor
+	cur         *gor
+	crossPanic  interface{}
+	preemptions int
+	locks       map[*Value]int // 0 free, -1 write-locked, n>0 readers
+	wgCount     map[*Value]int
 }
 
 type abortPath struct{}
@@ -59,7 +64,6 @@ func (in *Interp) schedReset() {
 		return
 	}
 	in.sc.on = true
-	in.sc.abort = make(chan struct{})
 	in.sc.locks = map[*Value]int{}
 	in.sc.wgCount = map[*Value]int{}
 	main := &gor{id: 0, resume: make(chan struct{})}
@@ -67,13 +71,15 @@ func (in *Interp) schedReset() {
 	in.sc.cur = main
 }
 
-// schedFinish discards the goroutines still parked when the path is over
+// schedFinish discards, one at a time, the goroutines still parked when the path is over
 func (in *Interp) schedFinish() {
 	if !in.sc.on {
 		return
 	}
-	close(in.sc.abort)
-	in.sc.wg.Wait()
+	for _, g := range in.sc.gos[1:] {
+		close(g.kill)
+		<-g.exited
+	}
 	in.sc.on = false
 }
 
@@ -111,10 +117,14 @@ func (in *Interp) park(self, next *gor) {
 	in.sc.cur = next
 	in.loadRegs(next)
 	next.resume <- struct{}{}
-	select {
-	case <-self.resume:
-	case <-in.sc.abort:
-		panic(abortPath{})
+	if self.id == 0 {
+		<-self.resume
+	} else {
+		select {
+		case <-self.resume:
+		case <-self.kill:
+			panic(abortPath{})
+		}
 	}
 	in.sc.cur = self
 	in.loadRegs(self)
@@ -142,12 +152,20 @@ func (in *Interp) yield(ready func() bool, what string) {
 		return
 	}
 	self.ready, self.what = ready, what
+	selfReady := ready == nil || ready()
+	if selfReady && in.sc.preemptions >= in.ex.cfg.Preempt && what != "settle" {
+		self.ready, self.what = nil, ""
+		return
+	}
 	run := in.runnable()
 	if len(run) == 0 {
 		panic(pathEnd{kind: "deadlock", msg: "all goroutines are blocked: " + in.blockedSummary()})
 	}
 	next := run[in.forkFree(len(run))]
 	if next != self {
+		if selfReady && what != "settle" {
+			in.sc.preemptions++
+		}
 		in.park(self, next)
 	}
 	self.ready, self.what = nil, ""
@@ -155,14 +173,13 @@ func (in *Interp) yield(ready func() bool, what string) {
 
 // spawn starts a goroutine of the program under analysis
 func (in *Interp) spawn(run func()) {
-	g := &gor{id: len(in.sc.gos), resume: make(chan struct{})}
+	g := &gor{id: len(in.sc.gos), resume: make(chan struct{}), kill: make(chan struct{}), exited: make(chan struct{})}
 	in.sc.gos = append(in.sc.gos, g)
-	in.sc.wg.Add(1)
 	go func() {
-		defer in.sc.wg.Done()
+		defer close(g.exited)
 		select {
 		case <-g.resume:
-		case <-in.sc.abort:
+		case <-g.kill:
 			return
 		}
 		defer func() {
@@ -271,6 +288,25 @@ func (in *Interp) lockRelease(m *Value, write bool) {
 	in.sc.locks[m]--
 }
 
+// ---- wait groups
+
+func (in *Interp) wgAdd(w *Value, n int) {
+	if !in.sc.on {
+		return
+	}
+	in.sc.wgCount[w] += n
+	if in.sc.wgCount[w] < 0 {
+		panic(targetPanic{v: in.runtimeErr("sync: negative WaitGroup counter")})
+	}
+}
+
+func (in *Interp) wgWait(w *Value) {
+	if !in.sc.on {
+		return
+	}
+	in.yield(func() bool { return in.sc.wgCount[w] == 0 }, "WaitGroup.Wait")
+}
+
 // ---- channels
 
 func (in *Interp) schedSend(c *Chan, v Value) {
@@ -372,4 +408,15 @@ func (in *Interp) settle() {
 		}
 		return true
 	}, "settle")
+}
+
+// blockedOthers: how many goroutines besides the caller have not finished (after a settle: are blocked for good)
+func (in *Interp) unfinishedOthers() int {
+	n := 0
+	for _, g := range in.sc.gos {
+		if g != in.sc.cur && !g.done {
+			n++
+		}
+	}
+	return n
 }
